@@ -44,6 +44,16 @@ INPUTS = {
     'lysozyme': os.path.join(DATA, 'tier-1', 'lysozyme', 'aa.pdb'),
     '6LFO_gap': os.path.join(DATA, 'tier-1', '6LFO_gap', '6LFO_gap.pdb'),
 }
+GENERATED = {'trp+sheet': 'WS'}        # two DIFFERENT chains 60 A apart (two molecule types in one topology): cli_c03.multichain_pdb
+
+
+def input_text(inp):
+    if inp in GENERATED:
+        from . import cli_c03
+        return cli_c03.multichain_pdb(GENERATED[inp])
+    return open(INPUTS[inp]).read()
+
+
 TIER1 = ('1UBQ', '3i40', 'lysozyme', '6LFO_gap')       # crystal structures: no hydrogens, waters ignored
 OPTION_SETS = {
     'default': ['-ff', 'martini3001'],
@@ -69,7 +79,7 @@ OPTION_SETS = {
 ROTATIONS = [((1, 2, 3), (1, 1, 1)), ((2, 1, 3), (-1, 1, 1)), ((3, 1, 2), (1, 1, 1)), ((1, 3, 2), (1, -1, 1)), ((2, 3, 1), (1, 1, 1)),
              ((1, 2, 3), (-1, -1, 1))]
 IDENT = c11_stages.IDENT
-H_KINDS = ('renameH', 'renameHs', 'swapH', 'revH', 'scrambleH')
+H_KINDS = ('renameH', 'renameHs', 'swapH', 'revH', 'scrambleH', 'digitH')
 
 
 # ------------------------------------------------------------------------------------------------------- presentations
@@ -131,6 +141,18 @@ def transform(text, kind, rng):
             for i, l in zip(grp, new):
                 out[i] = l
         return '\n'.join(out) + '\n', motion      # CONECT records refer to serial numbers, which travel with their atoms
+    if kind == 'digitH':
+        # old-style hydrogen names that START WITH A DIGIT (1H0, 2H0, ...), fresh within each residue, and NO element column at
+        # all: the element has to be read off the name (first letter), for the heavy atoms as well
+        for grp in _residue_groups(lines):
+            n = 0
+            for i in grp:
+                l = lines[i].ljust(80)
+                if _element(l) == 'H':
+                    l = _setname(l, '%dH%d' % (n % 9 + 1, n // 9))
+                    n += 1
+                out[i] = (l[:76] + '  ' + l[78:]).rstrip()
+        return '\n'.join(out) + '\n', motion
     if kind == 'renameH':
         n = 0
         for i in atom_idx:
@@ -326,7 +348,7 @@ def _job(job):
 
 
 _SCRATCH = None
-_COST = {'dipro': 1, 'trpcage': 1, 'betasheet': 1, 'helix': 2, '1UBQ': 2, '3i40': 2, 'lysozyme': 4, '6LFO_gap': 12}
+_COST = {'dipro': 1, 'trp+sheet': 2, 'trpcage': 1, 'betasheet': 1, 'helix': 2, '1UBQ': 2, '3i40': 2, 'lysozyme': 4, '6LFO_gap': 12}
 
 
 def execute(jobs, costs):
@@ -364,6 +386,8 @@ def pair_specs(tier, seed):
             ('betasheet', 'cys-thr', [], ['motion', 'permute+renameHs+motion']),
             ('trpcage', 'go', ['hashseed'], ['permute+renameHs']),
             ('trpcage', 'mapdup', ['hashseed', 'hashseed', 'hashseed'], []),
+            ('trp+sheet', 'default', ['hashseed', 'hashseed', 'hashseed', 'hashseed'], []),     # two molecule types in one .top
+            ('trpcage', 'm22-scfix', ['digitH'], ['digitH+permute']),      # digit-first hydrogen names, no element column
         ]       # the elastic-thr family needs a probe run first (second wave): thorough tier only
     out = []
     t0 = ('dipro', 'trpcage', 'betasheet', 'helix')
@@ -389,6 +413,11 @@ def pair_specs(tier, seed):
     out.append(('3i40', 'cys-thr', [], ['motion', 'permute+motion', 'motion']))
     out.append(('lysozyme', 'cys-thr', [], ['motion', 'permute+motion']))
     out.append(('trpcage', 'mapdup', ['hashseed'] * 5, []))
+    out.append(('trp+sheet', 'default', ['hashseed'] * 6, ['permute+renameHs+motion']))
+    out.append(('trp+sheet', 'elastic', ['hashseed'] * 3, []))
+    for inp in t0:
+        out.append((inp, 'elnedyn', ['digitH'], ['digitH+permute+motion']))
+        out.append((inp, 'posres-all', [], ['digitH']))
     out.append(('betasheet', 'mapdup', ['hashseed'] * 5, []))
     for inp in ('trpcage', 'betasheet', '3i40', '1UBQ'):       # Go model with the self-computed contact map (no rigid motion:
         out.append((inp, 'go', ['permute', 'hashseed'], ['permute', 'permute+renameHs']))      # contacts sit on many thresholds)
@@ -413,7 +442,7 @@ class Pair:
     def scenario(self, verdict, r1, r2, nh3):
         return {'what': self.what(), 'route': self.route, 'input': self.inp, 'option_set': self.opt, 'options': self.options,
                 'kinds': self.kinds, 'hashseed': self.hs, 'tseed': self.tseed, 'motion': self.motion, 'verdict': verdict,
-                'nh3_termini': nh3, 'interchain_conect': interchain_conect(open(INPUTS[self.inp]).read()), 'stderr_two': (r2.get('stderr') or '')[-300:],
+                'nh3_termini': nh3, 'interchain_conect': interchain_conect(input_text(self.inp)), 'stderr_two': (r2.get('stderr') or '')[-300:],
                 'particles': [len((r1.get('files') or r1)['top']), len((r2.get('files') or r2)['top'])]}
 
 
@@ -571,8 +600,8 @@ def run(tier, seed, ev, vd):
                       'driver from the coordinates the real processor receives, 1e-6 relative band; the option values of the '
                       'elastic-thr / cys-thr families are chosen to lie exactly on a pair distance']
     specs = pair_specs(tier, seed)
-    texts = {inp: open(INPUTS[inp]).read() for inp in INPUTS}
-    nh3 = {inp: nh3_termini(texts[inp]) for inp in INPUTS}
+    texts = {inp: input_text(inp) for inp in list(INPUTS) + list(GENERATED)}
+    nh3 = {inp: nh3_termini(texts[inp]) for inp in texts}
     probes = {}
     pending = []
     for inp, opt, ck, sk in specs:
@@ -737,7 +766,7 @@ def replay(sc):
         return pipeline.replay(sc)
     _SCRATCH = tlc.scratch('c11r_')
     inp, options, kinds = sc['input'], sc['options'], sc['kinds']
-    base = open(INPUTS[inp]).read()
+    base = input_text(inp)
     if kinds == 'hashseed':
         text, motion = base, dict(IDENT)
     else:
@@ -762,10 +791,10 @@ def selftest(seed):
     from . import pipeline
     pipeline.selftest_part(seed)
     _SCRATCH = tlc.scratch('c11s_')
-    base = open(INPUTS['trpcage']).read()
+    base = input_text('trpcage')
     opts = OPTION_SETS['elastic']
     moved, motion = present(base, 'permute+motion', 'selftest')
-    res = execute([('cli', (open(INPUTS['dipro']).read(), OPTION_SETS['default'], 0, 'base')),
+    res = execute([('cli', (input_text('dipro'), OPTION_SETS['default'], 0, 'base')),
                    ('stages', (base, opts, dict(IDENT), 'base', _SCRATCH)), ('stages', (moved, opts, motion, 'moved', _SCRATCH))], [1, 1, 1])
     r, s1, s2 = res
     assert r['ok'] and s1['ok'] and s2['ok'], (r.get('stderr'), s1.get('stderr'), s1.get('harness_error'), s2.get('stderr'))
